@@ -24,6 +24,12 @@ fiber_t* fibs[NALL];
 uint64_t bypass[NALL];
 uint64_t runs[NALL];
 uint64_t running_idx;
+#ifdef HANDOFF
+/* fibers 1 and 2 hand off to each other by wake-then-block (the pattern of two fibers ping-ponging over a signal or channel): the one
+   that runs wakes its partner if that is blocked and then blocks itself; everybody else only yields.  A blocked fiber is not ready, so
+   it is not counted as bypassed. */
+uint64_t blocked[NALL];
+#endif
 
 static void* body(void* p) { return p; }
 
@@ -38,6 +44,9 @@ void k_swap(fiber_context_t* from, fiber_context_t* to) {
   vm_assert(fi == running_idx, "C10/C01: the fiber switching away is not the one that is running");
   for (uint64_t i = 0; i < NALL; i++) {
     if (i == ti) { bypass[i] = 0; runs[i]++; }
+#ifdef HANDOFF
+    else if (blocked[i]) { }
+#endif
     else {
       bypass[i]++;
       vm_assert(bypass[i] <= 2 * (NALL - 1), "C10 fairness: a ready fiber was bypassed more often than 2*(n-1) times while the others kept yielding (starvation)");
@@ -62,11 +71,35 @@ void vm_init(void) {
   fiber_manager_state = FIBER_MANAGER_STATE_STARTED;
   fibs[0] = m->thread_fiber;
   for (int i = 1; i < NALL; i++) fibs[i] = fiber_create(1024, body, 0);
+#ifdef SAVING_QUEUED
+  /* one more fiber sits in the run queue in state SAVING_STATE_TO_WAIT for the whole window (it was woken by this thread while its own
+     kernel thread is still switching it out, and that thread is stalled): it must be skipped, not handed out, and must not block the others */
+  { fiber_t* x = fiber_create(1024, body, 0); x->state = FIBER_STATE_SAVING_STATE_TO_WAIT; }
+#endif
   running_idx = 0;
 }
+#ifdef HANDOFF
+static void step(void) {
+  const uint64_t me = running_idx;
+  if (me == 1 || me == 2) {
+    const uint64_t other = 3 - me;
+    fiber_manager_t* const m = fiber_manager_get();
+    if (blocked[other]) { blocked[other] = 0; bypass[other] = 0; fibs[other]->state = FIBER_STATE_READY; fiber_manager_schedule(m, fibs[other]); }
+    blocked[me] = 1;
+    fibs[me]->state = FIBER_STATE_WAITING;
+    fiber_manager_yield(m);
+  } else {
+    fiber_yield();
+  }
+}
+void vm_thread_1(void) {
+  for (int s = 0; s < STEPS; s++) step();
+}
+#else
 void vm_thread_1(void) {
   for (int s = 0; s < STEPS; s++) fiber_yield();
 }
+#endif
 void vm_final(void) {
   for (uint64_t i = 0; i < NALL; i++) vm_assert(runs[i] + (i == 0) >= 1, "C10 fairness: a ready fiber never ran during the whole window");
 }
